@@ -210,6 +210,8 @@ def pool_dist(rs):
         d["with_cancel"] += any(o.startswith("c ") for o in ops)
         d["with_dial_failure"] += any(o.endswith((" fc", " fh")) for o in ops[:ops.index("mark")] if True) if "mark" in ops else 0
         d["timed_idle"] += cfg[1] == "50"
+        d["lax_connection"] = d.get("lax_connection", 0) + (len(cfg) > 4 and cfg[4] == "1")
+        d["unreliable_skipped"] = d.get("unreliable_skipped", 0) + (r["obs"].strip() == "unreliable")
         d["max_idle_small"] += cfg[2] in ("0", "1", "2")
         d["cap_off"] += cfg[3] == "0"
         d["conn_close_ops"] += sum(1 for o in ops if o.startswith("cc "))
@@ -225,8 +227,10 @@ def pool_dist(rs):
             d["woken_polls"] += o.endswith("w")
     return d
 
-POOL_STREAM = {"name": "pool", "quick": 3000, "thorough": 200000, "sep": ";", "batch": 4000, "keep": ["mark"],
+POOL_STREAM = {"name": "pool", "quick": 6000, "thorough": 300000, "sep": ";", "batch": 4000, "keep": ["mark"],
                "nontrivial": pool_nontrivial, "distribution": pool_dist}
+POOLT_STREAM = {"name": "poolt", "quick": 40, "thorough": 1500, "sep": ";", "batch": 4000, "keep": ["mark"],
+                "nontrivial": pool_nontrivial, "distribution": pool_dist}
 POOL_RULE = ("random schedules (6-34 ops + drain/probe phase) of issue / poll / cancel / dial ok|ok+ALPN-h2|fail-connect|fail-handshake / "
              "finish / connection-ready / connection-close / run-tasks / real-time tick over 1-3 origins (differing in scheme, port, "
              "host, letter case), HTTP/1.1 and HTTP/2 mixed, max_idle in {0,1,2,3,32}, both continue_after_preemption settings, idle "
@@ -238,8 +242,9 @@ POOL_ASSUMES = ["tokio oneshot semantics (5-state model) and FIFO task schedulin
                 "hyper's is_ready/poll_ready abstracted as open && !busy; an upgraded connection is one that never becomes ready again",
                 "idle expiry uses the real clock: timed cases use 50 ms timeouts with 5/150 ms sleeps (guard band)"]
 
-def pool_prop(mod, prefixes, theorems):
-    return {"props_module": mod, "class_prefix": prefixes, "theorems": theorems, "streams": [POOL_STREAM],
+def pool_prop(mod, prefixes, theorems, timed=False):
+    return {"props_module": mod, "class_prefix": prefixes, "theorems": theorems,
+            "streams": [POOL_STREAM] + ([POOLT_STREAM] if timed else []),
             "rule": POOL_RULE, "assumes": POOL_ASSUMES}
 
 PROPS = {
@@ -250,7 +255,7 @@ PROPS = {
     "C04": pool_prop("HdModel.Props.C04", ["C04/"], ["Hd.Pool.C04_reuse_issue", "Hd.Pool.C04_reuse_poll", "Hd.Pool.C04_share_stays_pooled",
         "Hd.Pool.C04_dedup_issue", "Hd.Pool.C04_dedup_poll", "Hd.Pool.C04_marker_owner", "Hd.Pool.issue_found", "Hd.Pool.issue_missing"]),
     "C05": pool_prop("HdModel.Props.C05", ["C05/"], ["Hd.Pool.C05_pop_spec", "Hd.Pool.C05_expired_head", "Hd.Pool.C05_no_timeout_never_expires",
-        "Hd.Pool.C05_pop_suffix", "Hd.Pool.C05_issue_fresh"]),
+        "Hd.Pool.C05_pop_suffix", "Hd.Pool.C05_issue_fresh"], timed=True),
     "C06": pool_prop("HdModel.Props.C06", ["C06/"], ["Hd.Pool.C06_tokenOf", "Hd.Pool.C06_tokens_distinct", "Hd.Pool.C06_new_conn_origin",
         "Hd.Pool.keysOk_init"]),
     "C14": pool_prop("HdModel.Props.C14", ["C14/"], ["Hd.Pool.C14_preempt", "Hd.Pool.pushLoop_first_live", "Hd.Pool.C14_keeps_listening",
